@@ -85,6 +85,26 @@ var hashRe = regexp.MustCompile(`[A-Z2-7]{8}`)
 var placeholderRe = regexp.MustCompile(`[A-Za-z0-9_-]{16}[AC][0-9]{8}`)
 var markRe = regexp.MustCompile(`MARK_[a-z]+[0-9]*`)
 
+// plainAsset reports whether the output at path is an ordinary (non-entry) file/copy asset of a project whose
+// asset-names template has no [hash]: its name is then exactly the input's base name by the user's choice.
+func plainAsset(p *projgen.Project, path string) bool {
+	if p.Opts.AssetNames == "" || strings.Contains(p.Opts.AssetNames, "[hash]") {
+		return false
+	}
+	base := path[strings.LastIndex(path, "/")+1:]
+	for _, f := range p.Files {
+		if (f.Kind == projgen.KCopy || f.Kind == projgen.KFile) && f.Path[strings.LastIndex(f.Path, "/")+1:] == base {
+			for _, e := range p.Entries {
+				if e == f.Path {
+					return false
+				}
+			}
+			return true
+		}
+	}
+	return false
+}
+
 func isChunk(p string) bool { return strings.HasSuffix(p, ".js") || strings.HasSuffix(p, ".css") }
 func isSidecar(p string) bool {
 	return strings.HasSuffix(p, ".map") || strings.HasSuffix(p, ".LEGAL.txt")
@@ -368,7 +388,7 @@ func judge(c Case) (v vdrv.Verdict) {
 
 func judgeCase(c Case) vdrv.Verdict {
 	p1 := c.Project
-	for _, tmpl := range []string{p1.Opts.EntryNames, p1.Opts.ChunkNames, p1.Opts.AssetNames} {
+	for _, tmpl := range []string{p1.Opts.EntryNames, p1.Opts.ChunkNames} { // (assets named without [hash] are exempted individually: plainAsset)
 		if !strings.Contains(tmpl, "[hash]") {
 			return vdrv.Skip("template-without-hash")
 		}
@@ -460,9 +480,19 @@ func judgeCase(c Case) vdrv.Verdict {
 		}
 	}
 
+	// (0) every output named by a template that contains [hash] really has a hash in its path
+	for _, o := range o1 {
+		if !plainAsset(&p1, o.Path) && !hashRe.MatchString(o.Path) {
+			return vdrv.Fail("an output named by a template containing [hash] has no content hash in its path: "+o.Path, "…-XXXXXXXX…", o.Path)
+		}
+	}
+
 	// (1) a path emitted by both builds carries identical bytes
 	var clash []string
 	for _, o := range o2 {
+		if plainAsset(&p1, o.Path) {
+			continue // named by an asset template without [hash]: the name is not meant to identify the bytes
+		}
 		if prev, ok := b1.byP[o.Path]; ok && !bytes.Equal(prev, o.Contents) {
 			clash = append(clash, o.Path)
 		}
@@ -545,7 +575,7 @@ func judgeCase(c Case) vdrv.Verdict {
 			}
 			for k, a := range id1 {
 				bb := id2[k]
-				if bytes.Equal(a.Contents, bb.Contents) {
+				if bytes.Equal(a.Contents, bb.Contents) || plainAsset(&p1, a.Path) {
 					continue
 				}
 				// bytes changed: the path must change, and the path of every transitive referrer
@@ -773,7 +803,30 @@ func genEdit(t *rapid.T, p *projgen.Project) Edit {
 func genCase(t *rapid.T) Case {
 	var c Case
 	c.Project = projgen.Gen(t, projgen.Config{MinFiles: 8, MaxFiles: 40, ForceHash: true, ForceBundle: true, ForceESM: true, Placeholders: true, InputMaps: true, NoMangle: false})
+	// A copy-loader file may itself be an entry point: it is then named by the *entry* template. Together with
+	// an asset template that has no [hash] (the user's choice for ordinary assets) this separates "which
+	// template names the file" from "does the name need a hash".
+	if rapid.IntRange(0, 2).Draw(t, "copyentry") == 0 {
+		for _, f := range c.Project.Files {
+			if f.Kind == projgen.KCopy {
+				listed := false
+				for _, e := range c.Project.Entries {
+					listed = listed || e == f.Path
+				}
+				if !listed {
+					c.Project.Entries = append(c.Project.Entries, f.Path)
+				}
+				break
+			}
+		}
+	}
+	if rapid.IntRange(0, 3).Draw(t, "plainassets") == 0 {
+		c.Project.Opts.AssetNames = rapid.SampledFrom([]string{"[dir]/[name]", "assets/[dir]/[name]"}).Draw(t, "plainassetnames")
+	}
 	c.Edit = genEdit(t, &c.Project)
+	if c.Edit.Kind == "opt-assetnames" && !strings.Contains(c.Project.Opts.AssetNames, "[hash]") {
+		c.Edit = Edit{Kind: "none"} // switching between hash-free asset templates says nothing about hashes
+	}
 	return c
 }
 
